@@ -739,10 +739,23 @@ impl<T: PPGEvaluatorStrategy> PPGEvaluator<T> {
                             (Some(node_idx_a), Some(node_idx_b)) => {
                                 self.dag.edge_weight(*node_idx_a, *node_idx_b).is_some()
                             }
+                            (None, Some(node_idx_b)) => {
+                                // upstream is not in the graph.
+                                // If it's from a multi-output job that was producing different
+                                // stuff before, the record is replaced by the one under the new
+                                // name - but only once the downstream has been recorded again.
+                                // Until then (downstream failed, upstream failed, aborted) it is
+                                // the only record of what the downstream last consumed.
+                                let b = &self.jobs[*node_idx_b as usize];
+                                let downstream_recorded = b.history_output.is_some()
+                                    || b.state
+                                        == JobState::Ephemeral(JobStateEphemeral::FinishedSkipped);
+                                !downstream_recorded || filter_if_renamed(job_id_a)
+                            }
                             _ => {
-                                //if it's from a multi-output job that was producing different
-                                //stuff before,
-                                filter_if_renamed(job_id_a)
+                                // downstream is not in the graph: keep for when it returns,
+                                // unless it was renamed - then its own records are gone as well
+                                filter_if_renamed(job_id_b)
                             }
                         }
                     } else {
